@@ -521,20 +521,43 @@ fn seq_json(seq: &[(usize, [u8; 32])]) -> Value {
     json!({"kind": "mixed-keygen", "seq": seq.iter().map(|(n, s)| json!([n, hex(s)])).collect::<Vec<_>>()})
 }
 
-fn mixed_run(seed: u64, run: u64) -> RunOutcome {
+fn mixed_run(seed: u64, run: u64, k: u64) -> RunOutcome {
     let mut rng = Prng::new(report::run_seed(seed, "C15mixed", run));
     // starts with either variant; 512 keygens are cheap, so there are more of them
     let mut seq: Vec<(usize, [u8; 32])> = Vec::new();
-    let first1024 = rng.chance(2, 3);
-    if first1024 {
-        seq.push((1024, rng.seed32()));
-    }
-    for _ in 0..4 {
-        seq.push((512, rng.seed32()));
-    }
-    if !first1024 {
-        seq.push((1024, rng.seed32()));
-        seq.push((512, rng.seed32()));
+    if k % 2 == 1 {
+        // related seeds on one thread: a base seed, single-bit neighbours in different bytes, seeds that
+        // share the base's first or last bytes, and the base again - anything remembered under a part of
+        // a seed (a truncated key, a prefix, a hash of some bytes) is then found by a different seed
+        let n = if k % 8 == 7 { 1024 } else { 512 };
+        let base = rng.seed32();
+        seq.push((n, base));
+        for bit in [100i64, 64, 255, 7] {
+            seq.push((n, seed_with_bit(&base, bit)));
+        }
+        let mut tail = base;
+        for b in tail[24..].iter_mut() {
+            *b = rng.byte();
+        }
+        seq.push((n, tail));
+        let mut head = base;
+        for b in head[..8].iter_mut() {
+            *b = rng.byte();
+        }
+        seq.push((n, head));
+        seq.push((n, base));
+    } else {
+        let first1024 = rng.chance(2, 3);
+        if first1024 {
+            seq.push((1024, rng.seed32()));
+        }
+        for _ in 0..4 {
+            seq.push((512, rng.seed32()));
+        }
+        if !first1024 {
+            seq.push((1024, rng.seed32()));
+            seq.push((512, rng.seed32()));
+        }
     }
     let (class, st) = mixed_sequence(&seq);
     let mut out = RunOutcome::default();
@@ -544,13 +567,19 @@ fn mixed_run(seed: u64, run: u64) -> RunOutcome {
     if let Some((class, detail)) = class {
         // minimise: a 1024 keygen followed by one 512 keygen, if that suffices
         let mut best = seq.clone();
-        for i in 0..seq.len() {
+        let mut trials = 0;
+        'search: for i in 0..seq.len() {
             for j in 0..seq.len() {
-                if i != j && seq[i].0 != seq[j].0 {
+                if i != j && (seq[i].0 != seq[j].0 || (k % 2 == 1 && i < j)) {
                     let cand = vec![seq[i], seq[j]];
                     let r = crate::isolate::isolated(|| mixed_sequence(&cand).0.map(|c| c.0).unwrap_or_default().into_bytes(), crate::isolate::run_timeout_s());
-                    if matches!(&r, Ok(b) if b == class.as_bytes()) && cand.len() < best.len() {
+                    trials += 1;
+                    if matches!(&r, Ok(b) if b == class.as_bytes()) {
                         best = cand;
+                        break 'search;
+                    }
+                    if trials >= 16 {
+                        break 'search;
                     }
                 }
             }
@@ -824,7 +853,7 @@ pub fn context(tier: Tier, seed: u64) -> Result<Ctx, String> {
     if p512.keys.is_empty() || p1024.keys.is_empty() {
         return Err("shared signing key could not be generated on the current tree".into());
     }
-    let mixed = if tier == Tier::Quick { 6 } else { 60 };
+    let mixed = if tier == Tier::Quick { 8 } else { 64 };
     Ok(Ctx { shared: [0u8; 32], p512, p1024, r512, s512, o512, r1024, s1024, o1024, nb512, nb1024, mixed })
 }
 
@@ -845,7 +874,7 @@ fn dispatch(ctx: &Ctx, seed: u64, run: u64) -> RunOutcome {
     } else if run < ctx.r1024 + ctx.r512 {
         go::<V512>(seed, run, &ctx.p512.keys[0], ctx.s512, ctx.o512)
     } else {
-        mixed_run(seed, run)
+        mixed_run(seed, run, run - ctx.r1024 - ctx.r512)
     }
 }
 
@@ -879,24 +908,34 @@ pub fn check(tier: Tier, seed: u64) -> i32 {
     }
     // pinned hard seeds, three generations each, every one in a fresh process
     {
-        let pins = pinned_hard();
+        let mut pins: Vec<(usize, [u8; 32], String)> = pinned_hard().into_iter().map(|(n, c)| (n, crate::rng::counter_seed(c), format!("pinned hard seed, counter {}", c))).collect();
+        // edge seeds: a seed value that an implementation might treat as "no seed", a sentinel or a default
+        let mut one_first = [0u8; 32];
+        one_first[0] = 1;
+        let mut one_last = [0u8; 32];
+        one_last[31] = 1;
+        for n in [512usize, 1024] {
+            for (sd, what) in [([0u8; 32], "all-zero seed"), ([0xffu8; 32], "all-ones seed"), (one_first, "seed 01 00 .. 00"), (one_last, "seed 00 .. 00 01"), ([0x55u8; 32], "seed 55 .. 55")] {
+                pins.push((n, sd, what.to_string()));
+            }
+        }
         let items: Vec<u64> = (0..pins.len() as u64).collect();
         let job = |i: u64| -> Vec<u8> {
-            let (n, c) = pins[i as usize];
-            repeat_seed(n, crate::rng::counter_seed(c), 3).unwrap_or_default().into_bytes()
+            let (n, sd, _) = &pins[i as usize];
+            repeat_seed(*n, *sd, 3).unwrap_or_default().into_bytes()
         };
         let res = crate::isolate::fork_map(&items, w, None, &job);
         for (i, r) in res {
             rep.stats.inc("pinned_hard_seeds");
             rep.stats.evaluations += 3;
-            let (n, c) = pins[i as usize];
+            let (n, sd, what) = &pins[i as usize];
             if let Ok(b) = r {
                 if !b.is_empty() {
                     rep.violations.push(Violation {
                         property: PROP,
                         class: String::from_utf8_lossy(&b).to_string(),
-                        detail: format!("pinned hard seed {} {}", n, c),
-                        replay: json!({"kind": "repeat", "n": n, "seed_hex": hex(&crate::rng::counter_seed(c)), "times": 4}),
+                        detail: format!("variant {}: {}", n, what),
+                        replay: json!({"kind": "repeat", "n": n, "seed_hex": hex(sd), "times": 4}),
                         run: (1 << 41) + 7,
                     });
                 }
@@ -930,7 +969,7 @@ pub fn check(tier: Tier, seed: u64) -> i32 {
         let o = neighbourhood::<V1024>(r.seed32(), w);
         rep.absorb(o);
     }
-    rep.rule = "a case is one keygen(seed) call: (i) inside a seeded multi-thread plan where every seed occurs 2-3 times on the same or different baton-scheduled threads (pre-emption at the draws of keygen's seed-expanded stream and of concurrent sign calls), with or without a simulator stream installed behind the ambient seam, plus once in a fresh child process; (i') the same in a deep batch (instrumented build: pre-emption at function entries, so also between two loads of shared state inside the sampler); (ii) in a mixed-variant sequence of keygens on one thread, each compared with a fresh process; (ii') in a long single-thread history (72 Falcon-512 / 34 Falcon-1024 pairs in quick, 400 / 160 in thorough) through SecretKey::generate_from_seed + PublicKey::from_secret_key with a sign call now and then, each pair compared with keygen(seed) in a fresh process; (iii) three times in fresh processes for the seeds that need the most ntru_gen attempts (adaptively chosen from the neighbourhoods, and pinned in corpus/C15/hard-seeds.txt); (iv) on one of the 256 single-bit neighbours of a sampled base seed (the neighbourhood of each sampled base seed is enumerated completely; base seeds are sampled). Non-trivial for (i): the call was pre-empted mid-call; for (ii): every neighbour. Distinct = distinct (schedule trace, thread, seed) resp. distinct key pairs".into();
+    rep.rule = "a case is one keygen(seed) call: (i) inside a seeded multi-thread plan where every seed occurs 2-3 times on the same or different baton-scheduled threads (pre-emption at the draws of keygen's seed-expanded stream and of concurrent sign calls), with or without a simulator stream installed behind the ambient seam, plus once in a fresh child process; (i') the same in a deep batch (instrumented build: pre-emption at function entries, so also between two loads of shared state inside the sampler); (ii) in a sequence of keygens on one thread - mixed variants and unrelated seeds, or one variant and related seeds (a base seed, four single-bit neighbours, a seed sharing its first 24 bytes, one sharing its last 24 bytes, the base again) - each compared with a fresh process; (ii') in a long single-thread history (72 Falcon-512 / 34 Falcon-1024 pairs in quick, 400 / 160 in thorough) through SecretKey::generate_from_seed + PublicKey::from_secret_key with a sign call now and then, each pair compared with keygen(seed) in a fresh process; (iii) three times in fresh processes for five edge seeds per variant (all zero, all ones, a single 01 byte first or last, 55..55) and for the seeds that need the most ntru_gen attempts (adaptively chosen from the neighbourhoods, and pinned in corpus/C15/hard-seeds.txt); (iv) on one of the 256 single-bit neighbours of a sampled base seed (the neighbourhood of each sampled base seed is enumerated completely; base seeds are sampled). Non-trivial for (i): the call was pre-empted mid-call; for (ii): every neighbour. Distinct = distinct (schedule trace, thread, seed) resp. distinct key pairs".into();
     rep.assumptions = vec![
         "keygen is stopped after 3000 ntru_gen attempts' worth of draws (bounded liveness; a correct tree needs 13 resp. 24 attempts on average)".into(),
         "an ambient-entropy draw inside keygen is recorded as a probe, not an alarm; only differing key bytes are".into(),
